@@ -93,6 +93,34 @@ def dense_dags(ctx, r):
         st.close()
 
 
+def padded_references(ctx):
+    """plans whose `after` entries differ from a task title only by blanks around them (and titles that carry such blanks themselves): whatever the
+    command decides, every edge it records joins two items of the plan — never an item that does not exist"""
+    docs = []
+    for pad in (" Schema", "Schema ", "\tSchema", " Schema  ", "Schema\n"):
+        docs.append({"title": "padded reference %r" % pad, "tasks": [{"title": "Schema"}, {"title": "Migrate", "after": [pad]}]})
+    docs.append({"title": "padded title", "tasks": [{"title": " Schema "}, {"title": "Migrate", "after": ["Schema"]}]})
+    docs.append({"title": "padded title, exact reference", "tasks": [{"title": " Schema "}, {"title": "Migrate", "after": [" Schema "]}]})
+    docs.append({"title": "two references, one padded", "tasks": [{"title": "Schema"}, {"title": "Index"}, {"title": "Migrate", "after": ["Index", "Schema "]}]})
+    for doc in docs:
+        st = cmdrun.Store(ctx.ergo, ctx.go)
+        trace = []
+        try:
+            st.exec(["--json", "new", "task"], b'{"title":"already there"}')
+            req = {"cmd": "plan", "plan": doc}
+            rec = cmdrun.run_and_compare(st, ctx.model, cmdrun.classify_raw(ctx.go, req), "")
+            trace.append({"argv": cmdrun.argv_of(req, ""), "stdin": json.dumps(doc, ensure_ascii=False), "exit": rec["exit"]})
+            ctx.count(1, key=("padded-reference", doc["title"], rec["exit"] == 0))
+            if "err" in rec["pre"] or "err" in rec["post"]:
+                ctx.violation("C07 store unreadable after plan", str(rec["post"].get("err"))[:200], {"trace": trace}); return
+            if rec["diff"]:
+                ctx.tie_broken("T2-cmd (plan with padded references)", {"diff": rec["diff"], "trace": trace})
+            if oracle(ctx, st, req, "", rec, trace):
+                return
+        finally:
+            st.close()
+
+
 def run(ctx):
     res = fndiff.run_stream(ctx.ev, ["fn-replay", str(ctx.seed + 700), "1500" if ctx.quick else "20000"])
     ctx.tie("T2-fn replay/hasCycle", cases=res["cases"], classes=res["classes"], disagreements=len(res["diffs"]))
@@ -102,6 +130,7 @@ def run(ctx):
     r = gen.Rng(ctx.seed * 1000003 + 7)
     for h in range(25 if ctx.quick else 400):
         run_history(ctx, r.fork(), 40, WEIGHTS, oracle, gen_fn=gen_fn)
+    padded_references(ctx)
     for i in range(8 if ctx.quick else 150):
         dense_dags(ctx, r.fork())
     # the cycle test and the write must see the same log: sequence ∥ sequence asking for the two directions of one edge (and sequence ∥ any
